@@ -35,8 +35,8 @@ class C19(core.Check):
     pid = "C19"
     level = "model_checking"
     timeout = 900
-    rule = ("every program of a 16-program corpus x {8 hash seeds in fresh interpreters, 3 working directories, 3 solver "
-            "budgets mapped to deterministic time, every layout answer of the deviation menu (bound 1; incl. all exchanges of two of the first five combinators) and injected relay "
+    rule = ("every program of a 16-program corpus x {8 hash seeds in fresh interpreters (quick: 5), 3 working directories (quick: 2), 3 solver budgets (quick: 2) "
+            "mapped to deterministic time, every layout answer of the deviation menu (bound 1; incl. all exchanges of two of the first five combinators) and injected relay "
             "failures, every compile history 'Q then P' of length 2 in one process}; the canonical logical circuit (entity "
             "configurations + partition of connectors into networks, poles contracted, numbering/positions erased, "
             "canonicalised by colour refinement) must equal the baseline (seed 0, default answer, fresh process); "
@@ -77,19 +77,22 @@ class C19(core.Check):
                     diffs.append((tag, canon.explain_diff(base["form"], got["form"])))
 
             if g == "seeds":
-                for s in SEEDS[1:]:
+                for s in (SEEDS[1:] if tier == "thorough" else (1, 2, 5, 17)):
                     cmp(f"seed={s}", run_cli(sp, seed=s))
             elif g == "cwds":
                 os.mkdir(os.path.join(td, "empty"))
-                for cwd in (harness.REPO, "/", os.path.join(td, "empty")):
+                for cwd in ((harness.REPO, "/", os.path.join(td, "empty")) if tier == "thorough" else (harness.REPO, os.path.join(td, "empty"))):
                     cmp(f"cwd={cwd if cwd in (harness.REPO, '/') else 'empty-dir'}", run_cli(sp, cwd=cwd))
             elif g == "budgets":
-                for b in (1, 5, 45):
+                for b in ((1, 5, 45) if tier == "thorough" else (1, 45)):
                     cmp(f"budget={b}", run_cli(sp, budget=b))
             elif g == "histories":
                 qs = [q for q in CORPUS if q != case["program"]]
                 if tier == "quick":
                     qs = qs[:: max(1, len(qs) // 5)][:5]
+                for extra in ("hist-memory-named-counter", "cell"):       # always: programs that register labels
+                    if extra not in qs and extra != case["program"]:
+                        qs.append(extra)
                 for q in qs:
                     qp = os.path.join(td, f"q_{q}.facto")
                     open(qp, "w").write(CORPUS[q])
